@@ -158,7 +158,11 @@ func (w *world) runHelpers(c fiber.Ctx) error {
 			}
 		case "format":
 			terminal = true
-			if err := c.Format(fiber.ResFmt{MediaType: "text/plain", Handler: func(c fiber.Ctx) error { return c.SendString(bodyMarker) }},
+			mt := "text/plain"
+			if arg(a, 0) != "" {
+				mt += "; charset=" + arg(a, 0) // a media type with a parameter chosen at run time
+			}
+			if err := c.Format(fiber.ResFmt{MediaType: mt, Handler: func(c fiber.Ctx) error { return c.SendString(bodyMarker) }},
 				fiber.ResFmt{MediaType: "application/json", Handler: func(c fiber.Ctx) error { return c.JSON(1) }}); err != nil {
 				return err
 			}
@@ -571,7 +575,11 @@ func genHelpers(t *rapid.T) []Helper {
 		case "flash":
 			hs = append(hs, Helper{"flash", []string{a("fk"), a("fv"), rapid.SampledFrom([]string{"!", "A", "\x00", "\n", ";", "\xff"}).Draw(t, "flvl")}})
 		case "format":
-			hs = append(hs, Helper{"format", nil})
+			if rapid.Bool().Draw(t, "fmtparam") {
+				hs = append(hs, Helper{"format", []string{a("fmt")}})
+			} else {
+				hs = append(hs, Helper{"format", nil})
+			}
 		case "download":
 			hs = append(hs, Helper{"download", []string{a("dl")}})
 		}
